@@ -1,3 +1,81 @@
-import Mqtt5V.Basic
+import Mqtt5V.Model.Session
+/-! # C13 — losing the session is reported once through async_receive (flag machine)
+
+Model of the two session flags.  For every history of reconnects (any Session Present value), session
+refreshes (`update_session_state`, called from both the read and the write path, any number of times per
+connection) and successful subscriptions: a refresh stores `session_expired` exactly when the connection's
+CONNACK had Session Present = 0, this is the first refresh of that connection, and a subscription succeeded since
+the client started or since the previous report; never otherwise. -/
 namespace Mqtt5V.Props.C13
+open Mqtt5V.Model.Session
+
+/-- a refresh reports iff the session was not resumed and a subscription has succeeded since the last report -/
+theorem report_iff (s : Sess) : (step s .update).2 = (!s.sessionPresent && s.subsPresent) := by
+  unfold step; cases s.sessionPresent <;> cases s.subsPresent <;> rfl
+
+/-- **idempotence**: the second and later refreshes of the same connection (read path and write path both call it)
+report nothing and change nothing -/
+theorem second_update_silent (s : Sess) :
+    (step (step s .update).1 .update) = ((step s .update).1, false) := by
+  cases s with
+  | mk sp su => cases sp <;> cases su <;> rfl
+
+/-- **resumed session ⇒ no report, and the subscription memory is kept** for a later loss -/
+theorem resumed_no_report (s : Sess) :
+    (step (step s (.connack true)).1 .update) = ({ s with sessionPresent := true }, false) := by
+  simp [step]
+
+/-- **lost session after a successful subscription ⇒ exactly one report**, then the memory is cleared -/
+theorem lost_after_subscription_reports_once (s : Sess) (h : s.subsPresent = true) :
+    (step (step s (.connack false)).1 .update).2 = true ∧
+    (step (step s (.connack false)).1 .update).1 = { sessionPresent := true, subsPresent := false } := by
+  simp [step, h]
+
+/-- **no successful subscription since the last report ⇒ none** -/
+theorem lost_without_subscription_silent (s : Sess) (h : s.subsPresent = false) :
+    (step (step s (.connack false)).1 .update).2 = false := by
+  simp [step, h]
+
+/-- number of reports of a history -/
+def reports (is : List In) : Nat := ((run {} is).2.filter id).length
+
+/-- specification: walk the history; a report is due at the first refresh after a CONNACK with Session Present 0
+when a subscription succeeded since the previous report (or the start) -/
+def specReports : Bool → Bool → List In → Nat   -- (pending loss, subscribed since last report)
+  | _, _, [] => 0
+  | _, sub, .connack sp :: is => specReports (!sp) sub is
+  | lost, sub, .update :: is => (if lost && sub then 1 else 0) + specReports false (if lost then false else sub) is
+  | lost, _, .subOk :: is => specReports lost true is
+
+/-- **exactly one report per lost session with a subscription since the last report — for every history** -/
+theorem reports_match_spec (is : List In) : reports is = specReports true false is := by
+  unfold reports
+  suffices h : ∀ (s : Sess) (is : List In),
+      ((run s is).2.filter id).length = specReports (!s.sessionPresent) s.subsPresent is from by
+    simpa using h {} is
+  intro s is
+  induction is generalizing s with
+  | nil => simp [run, specReports]
+  | cons i is ih =>
+    cases i with
+    | connack sp =>
+      simp only [run, step, specReports]
+      rw [List.filter_cons]; simp only [id, Bool.false_eq_true, if_false]
+      exact ih _
+    | update =>
+      simp only [run, specReports]
+      rw [List.filter_cons]
+      have := ih (step s .update).1
+      cases hsp : s.sessionPresent <;> cases hsu : s.subsPresent <;>
+        simp_all [step, id] <;> omega
+    | subOk =>
+      simp only [run, specReports]
+      rw [List.filter_cons]
+      have := ih (step s .subOk).1
+      cases hsu : s.subsPresent <;> simp_all [step, id]
+
+/-- non-vacuity: subscribe, resume, lose, lose again without subscribing: one report -/
+example : (run {} [.connack false, .update, .update, .subOk, .connack true, .update, .connack false, .update, .update,
+    .connack false, .update]).2 = [false, false, false, false, false, false, false, true, false, false, false] := by decide
+
 end Mqtt5V.Props.C13
